@@ -333,30 +333,24 @@ func (e *Enc) funcWrites(callee *ssa.Function, c *ssa.CallCommon, ws *writeSet, 
 		return
 	}
 	if !inRepo(callee) {
-		// external code: cannot write repo struct fields unless given a callback / interface
+		// external code writes only what it can reach from its receiver and arguments (by static
+		// type); a callback or an interface-typed argument makes that unknown
 		sig := callee.Signature
-		check := func(t types.Type) bool {
-			switch t.Underlying().(type) {
-			case *types.Signature:
-				return true
-			case *types.Interface:
-				return !isErrorType(t)
-			}
-			return false
+		var ts []types.Type
+		if sig.Recv() != nil {
+			ts = append(ts, sig.Recv().Type())
 		}
 		for i := 0; i < sig.Params().Len(); i++ {
-			if check(sig.Params().At(i).Type()) {
+			ts = append(ts, sig.Params().At(i).Type())
+		}
+		seenT := map[string]bool{}
+		for _, t := range ts {
+			if !e.externReach(t, ws.names, seenT, 0) {
 				ws.all = true
 				return
 			}
 		}
-		if sig.Recv() != nil {
-			if _, isIface := sig.Recv().Type().Underlying().(*types.Interface); isIface {
-				ws.all = true
-				return
-			}
-		}
-		ws.extern = true
+		ws.extern = true // ghost state of external objects (database contents, sets) may change
 		return
 	}
 	ws.all = true
@@ -533,9 +527,7 @@ func (f *FnEnc) localCompsHit(t types.Type, ws writeSet) bool {
 		if ws.names[n] || ws.fresh[n] {
 			return true
 		}
-		if ws.extern && !strings.HasPrefix(n, "F "+modPath) {
-			return true
-		}
+
 	}
 	return false
 }
@@ -552,9 +544,10 @@ func (f *FnEnc) havocWrites(ws writeSet) *State {
 		st = f.e.havocState(f.st, nil)
 	} else {
 		names, fresh, ext := ws.names, ws.fresh, ws.extern
+		extGhost := func(c *Comp) bool { return ext && !c.Repo && strings.HasPrefix(c.Name, "GF ") }
 		st = f.e.havocState2(f.st,
-			func(c *Comp) bool { return !names[c.Name] && !fresh[c.Name] && !(ext && !c.Repo) },
-			func(c *Comp) bool { return !names[c.Name] && fresh[c.Name] && !(ext && !c.Repo) })
+			func(c *Comp) bool { return !names[c.Name] && !fresh[c.Name] && !extGhost(c) },
+			func(c *Comp) bool { return !names[c.Name] && fresh[c.Name] && !extGhost(c) })
 	}
 	f.restoreLocals(st, saved)
 	return st
@@ -1079,6 +1072,9 @@ func (f *FnEnc) checkPost(results []Val, pos token.Pos) {
 	}
 	ctx := &SpecCtx{e: e, f: f, vars: vars, st: f.st, old: f.entry, pkg: f.fnPkg(), hdrBlock: f.blk, atReturn: true}
 	for i, c := range f.spec.Ensures {
+		if c.NoProve {
+			continue
+		}
 		g := f.evalClauseSafe(ctx, c)
 		f.addObl("post", clauseLabel(c, i)+"@ret"+fmt.Sprint(len(f.rets)), g, pos, c.Props, c.Src)
 	}
@@ -1487,4 +1483,101 @@ func (r *Resolver) findNonNilGlobals() {
 			}
 		}
 	}
+}
+
+// externReach collects the components holding memory reachable (by static type) from a value of
+// type t handed to external code. Returns false when the reachable set is unknown (function
+// values, non-error interfaces).
+func (e *Enc) externReach(t types.Type, out map[string]bool, seen map[string]bool, depth int) bool {
+	k := typeKey(t)
+	if seen[k] {
+		return true
+	}
+	seen[k] = true
+	if depth > 12 {
+		return false
+	}
+	switch u := t.Underlying().(type) {
+	case *types.Basic:
+		return true
+	case *types.Signature:
+		return false
+	case *types.Interface:
+		return isErrorType(t)
+	case *types.Chan:
+		return true
+	case *types.Pointer:
+		el := u.Elem()
+		if e.isBigInt(el) {
+			out["bigval"] = true
+			return true
+		}
+		if st := structOf(el); st != nil {
+			return e.externStruct(el, st, out, seen, depth)
+		}
+		for _, l := range e.leavesSafe(el) {
+			out["C "+typeKey(el.Underlying())+l.path] = true
+		}
+		return e.externReach(el, out, seen, depth+1)
+	case *types.Slice:
+		el := u.Elem()
+		if st := structOf(el); st != nil {
+			return e.externStruct(el, st, out, seen, depth)
+		}
+		for _, l := range e.leavesSafe(el) {
+			out["C "+typeKey(el.Underlying())+l.path] = true
+		}
+		return e.externReach(el, out, seen, depth+1)
+	case *types.Array:
+		return e.externReach(u.Elem(), out, seen, depth+1)
+	case *types.Map:
+		e.mapCompNames(u, out)
+		return e.externReach(u.Key(), out, seen, depth+1) && e.externReach(u.Elem(), out, seen, depth+1)
+	case *types.Struct:
+		// a struct passed by value: only what its fields point to
+		for i := 0; i < u.NumFields(); i++ {
+			if !e.externReach(u.Field(i).Type(), out, seen, depth+1) {
+				return false
+			}
+		}
+		return true
+	}
+	return false
+}
+
+func (e *Enc) externStruct(T types.Type, st *types.Struct, out map[string]bool, seen map[string]bool, depth int) bool {
+	if !isRepoType(T) {
+		if _, named := T.(*types.Named); named {
+			// memory of an external type: its fields are written by its own package only; our model
+			// keeps them in components named after the type
+			for i := 0; i < st.NumFields(); i++ {
+				for _, l := range e.leavesSafe(st.Field(i).Type()) {
+					out["F "+structKey(T)+" "+st.Field(i).Name()+l.path] = true
+				}
+			}
+			return true // what lies behind unexported fields of external types is not modelled
+		}
+	}
+	for i := 0; i < st.NumFields(); i++ {
+		ft := st.Field(i).Type()
+		if !e.subObj(ft) {
+			for _, l := range e.leavesSafe(ft) {
+				out["F "+structKey(T)+" "+st.Field(i).Name()+l.path] = true
+			}
+		} else if _, isArr := ft.Underlying().(*types.Array); isArr {
+			for _, l := range e.leavesSafe(ft) {
+				out["C "+typeKey(ft.Underlying())+l.path] = true
+			}
+		}
+		if sst := structOf(ft); sst != nil {
+			if !e.externStruct(ft, sst, out, seen, depth+1) {
+				return false
+			}
+			continue
+		}
+		if !e.externReach(ft, out, seen, depth+1) {
+			return false
+		}
+	}
+	return true
 }
